@@ -181,8 +181,8 @@ class Ctx:
         except BaseException as e:
             self.log("thrown", site=site, mid=mid, exc=type(e).__name__, text=str(e)[:200])
             raise
-        self.responses.append((site, mid, r))
         self.log("resp", site=site, mid=mid, value=summarize(r))
+        self.responses.append((site, mid, r, self.sim._seq))
         if node.get("save"):
             self.vars[node["save"]] = r
         return r
